@@ -972,6 +972,63 @@ fn forms_parse(v: &Value) -> Vec<Form> {
         .unwrap_or_default()
 }
 
+/// (f) flag actions hand the literal `true` / `false` to the argument's value parser, also when the
+/// flag is absent (documented on `ArgAction::SetTrue` / `SetFalse`, incl. the mapped-to-usize example)
+const FLAG_PARSERS: [&str; 7] = ["bool", "boolish", "falsey", "boolish-negated", "fn-length-is-4", "reject-true", "mapped-to-usize"];
+
+fn check_flag(set_true: bool, which: &str, given: bool, h: &mut Hist) -> Vec<(String, String)> {
+    use clap::builder::TypedValueParser;
+    let mut bad = vec![];
+    let vp: clap::builder::ValueParser = match which {
+        "bool" => clap::value_parser!(bool).into(),
+        "boolish" => clap::builder::BoolishValueParser::new().into(),
+        "falsey" => clap::builder::FalseyValueParser::new().into(),
+        "boolish-negated" => clap::builder::BoolishValueParser::new().map(|b| !b).into(),
+        "fn-length-is-4" => clap::builder::ValueParser::new(|s: &str| Ok::<bool, std::convert::Infallible>(s.len() == 4)),
+        "reject-true" => clap::builder::ValueParser::new(|s: &str| if s == "true" { Err("no".to_string()) } else { Ok(false) }),
+        _ => clap::builder::BoolValueParser::new().map(|b| -> usize { if b { 10 } else { 5 } }).into(),
+    };
+    let literal = if given == set_true { "true" } else { "false" };
+    // what the parser makes of the literal, computed by hand
+    let want: Option<String> = match which {
+        "bool" | "boolish" | "falsey" => Some((literal == "true").to_string()),
+        "boolish-negated" => Some((literal != "true").to_string()),
+        "fn-length-is-4" => Some((literal.len() == 4).to_string()),
+        "reject-true" => if literal == "true" { None } else { Some("false".into()) },
+        _ => Some(if literal == "true" { "10".into() } else { "5".into() }),
+    };
+    if want.is_none() && !given {
+        // a default the parser rejects: not pinned
+        return bad;
+    }
+    let action = if set_true { clap::ArgAction::SetTrue } else { clap::ArgAction::SetFalse };
+    let cmd = clap::Command::new("prog").arg(clap::Arg::new("f").long("f").action(action).value_parser(vp));
+    let argv: Vec<&str> = if given { vec!["prog", "--f"] } else { vec!["prog"] };
+    let got: Option<String> = match cmd.try_get_matches_from(argv) {
+        Ok(m) => {
+            if which == "mapped-to-usize" {
+                m.try_get_one::<usize>("f").ok().flatten().map(|v| v.to_string())
+            } else {
+                m.try_get_one::<bool>("f").ok().flatten().map(|v| v.to_string())
+            }
+        }
+        Err(e) => {
+            if want.is_none() && !matches!(e.kind(), clap::error::ErrorKind::ValueValidation | clap::error::ErrorKind::InvalidValue) {
+                bad.push(("a flag literal the parser rejects gives an error of another kind".into(), format!("{:?}", e.kind())));
+            }
+            None
+        }
+    };
+    h.nontrivial += 1;
+    if got != want {
+        bad.push((
+            "a flag's value is not what its value parser makes of the action's literal".into(),
+            format!("{} parser {} given={}: literal {:?} -> want {:?}, got {:?}", if set_true { "SetTrue" } else { "SetFalse" }, which, given, literal, want, got),
+        ));
+    }
+    bad
+}
+
 fn recheck(case: &Value) -> Vec<Violation> {
     let mut h = Hist::new();
     let cand = unhex(case["string_hex"].as_str().unwrap_or(""));
@@ -988,6 +1045,12 @@ fn recheck(case: &Value) -> Vec<Violation> {
         "pv" => {
             let ic = case["ignore_case"].as_bool().unwrap_or(false);
             catch(|| check_pv(ic, &cand, &mut h))
+        }
+        "flag" => {
+            let which = case["parser"].as_str().unwrap_or("bool").to_string();
+            let st = case["set_true"].as_bool().unwrap_or(true);
+            let given = case["given"].as_bool().unwrap_or(true);
+            catch(|| check_flag(st, &which, given, &mut h))
         }
         "strlike" => {
             let which = case["parser"].as_str().unwrap_or("string").to_string();
@@ -1074,6 +1137,26 @@ fn main() {
                     }
                 }
                 Err(p) => rep.violation(Violation { cause: p.key(), order: (1 << 40, ci as u64), what: p.show(), case: mk() }),
+            }
+        }
+    }
+    // (f)
+    for set_true in [true, false] {
+        for which in FLAG_PARSERS {
+            for given in [false, true] {
+                h.evaluations += 1;
+                h.states += 1;
+                h.transitions += 1;
+                h.validated += 1;
+                let mk = || json!({"part": "flag", "parser": which, "set_true": set_true, "given": given});
+                match catch(|| check_flag(set_true, which, given, &mut h)) {
+                    Ok(bad) => {
+                        for (cause, w) in bad {
+                            rep.violation(Violation { cause: cause.clone(), order: (1 << 39, 0), what: format!("{}: {}", cause, w), case: mk() });
+                        }
+                    }
+                    Err(p) => rep.violation(Violation { cause: p.key(), order: (1 << 39, 0), what: p.show(), case: mk() }),
+                }
             }
         }
     }
